@@ -378,6 +378,58 @@ pub fn prefix_family(thorough: bool) -> Vec<String> {
     out
 }
 
+const DOC_LINES: &[&str] = &[
+    "---@class A", "---@class A<T>: B, C", "---@class (exact) A: B", "---@field x number", "---@field [string] number", "---@field private x? fun(a: A): B desc",
+    "---@alias A 'x' | 'y'", "---@alias A\n---| 'x' # one\n---| 'y' # two", "---@type A|B?", "---@type table<string, A[]>", "---@type fun(a: A, ...: any): B, C",
+    "---@type { a: A, [1]: B }", "---@type [A, B]", "---@type `T`", "---@type A extends B and C or D", "---@type keyof A", "---@type -1", "---@type \"s\" | 'c'",
+    "---@param a number desc", "---@param ... any", "---@param a? A", "---@return number? name description", "---@return A, B", "---@return_cast a A",
+    "---@generic T: A, U", "---@overload fun(a: A): B", "---@operator add(number): A", "---@cast x +string, -nil", "---@cast x A", "---@see a#b", "---@see a.b.c",
+    "---@source file.lua:1:2", "---@version >5.1, JIT", "---@diagnostic disable-next-line: undefined-global, unused", "---@diagnostic enable", "---@module 'a.b'",
+    "---@enum E", "---@enum (key) E", "---@meta", "---@meta name", "---@deprecated use x", "---@async", "---@nodiscard", "---@private", "---@package",
+    "---@namespace A.B", "---@using A.B", "---@[deprecated(\"x\")]", "---@attribute a(x: string)", "---@language lua", "---@as A", "---@export", "---@readonly",
+    "---@mapping x", "---@unknown tag here", "---@", "--- plain `code` *text*", "---", "--", "-- c", "--region r", "--endregion", "--[[ block ]]", "--[==[ b\nl ]==]",
+    "--[[@type A]]", "---@type", "---@param", "---@field", "---@class", "---@alias", "---@return", "---@generic", "---@type (", "---@type A<", "---@type fun(", "---@type {",
+    "---@type A |", "---@type A.", "---@param a", "---@field x", "---@type 'unterminated", "---@type A # comment", "---@type A @ comment",
+];
+
+/// every doc line in every context (alone, before/after code, inline, in a table, CRLF/CR, NUL)
+pub fn doc_family(thorough: bool) -> Vec<String> {
+    let mut out = Vec::new();
+    for d in DOC_LINES {
+        out.push(d.to_string());
+        out.push(format!("{d}\n"));
+        out.push(format!("{d}\nlocal x = 1\n"));
+        out.push(format!("local y = 2 {d}\nlocal x\n"));
+        out.push(format!("local t = {{\n  {d}\n  a = 1, {d}\n}}\n"));
+        out.push(format!("{d}\r\n{d}\r\nfunction f() end\r\n"));
+        out.push(format!("{d}\rlocal x\r"));
+        out.push(format!("{d}\n\n{d}\n{d}\nlocal x\n"));
+        out.push(format!("function f()\n  {d}\n  return\nend {d}"));
+        if thorough {
+            out.push(format!("{d}\0\nlocal x\n"));
+            out.push(format!("{d} \t \nlocal x\n"));
+            out.push(format!("{}{d}\nlocal x\n", '\u{feff}'));
+            out.push(format!("{d}é中😀\nlocal x\n"));
+            for e in DOC_LINES.iter().step_by(7) {
+                out.push(format!("{d}\n{e}\nlocal x\n"));
+            }
+        }
+    }
+    out
+}
+
+/// a few large inputs (more than 2^16 bytes / tokens / lines)
+pub fn big_texts() -> Vec<String> {
+    vec![
+        "a ".repeat(40_000),
+        "local a = f(1, 'x') -- c\n".repeat(4_000),
+        "---@param a number\n".repeat(3_000) + "function f(a) end\n",
+        format!("x = {{{}}}", "1, ".repeat(30_000)),
+        "x = [[".to_string() + &"long é\n".repeat(12_000) + "]]",
+        "--[[".to_string() + &"c\n".repeat(30_000),
+    ]
+}
+
 /// generic booster: wrap a generated body with a rare prefix and/or suffix
 pub fn boost(rng: &mut Rng, body: &str) -> String {
     let p = if rng.chance(2, 3) { *rng.pick(RARE_PREFIXES) } else { "" };
@@ -491,6 +543,8 @@ pub fn run(args: &Args, report: &mut Report) {
     let mut texts: Vec<(String, &'static str)> = corpus().into_iter().map(|t| (t, "corpus")).collect();
     texts.extend(prefix_family(args.thorough()).into_iter().map(|t| (t, "prefix-family")));
     texts.extend(limit_ladders(args.thorough()).into_iter().map(|t| (t, "limit-ladder")));
+    texts.extend(doc_family(args.thorough()).into_iter().map(|t| (t, "doc-family")));
+    texts.extend(big_texts().into_iter().map(|t| (t, "big")));
     for _ in 0..n_text {
         let mp = if rng.chance(1, 20) { max_pieces * 4 } else { max_pieces };
         let (t, cls) = tgen::text(&mut rng, mp);
@@ -507,6 +561,11 @@ pub fn run(args: &Args, report: &mut Report) {
         // corpus entries run under every configuration, generated texts under one random + default
         let cfgs: Vec<(LuaLanguageLevel, bool)> = if *cls == "corpus" || *cls == "prefix-family" {
             LEVELS.iter().flat_map(|l| [(*l, true), (*l, false)]).collect()
+        } else if *cls == "doc-family" {
+            let l = LEVELS[k % 8];
+            vec![(l, true), (l, false), (LuaLanguageLevel::Lua55, true)]
+        } else if *cls == "big" {
+            vec![(LuaLanguageLevel::Lua54, true), (LuaLanguageLevel::LuaJIT, false)]
         } else if *cls == "limit-ladder" {
             let l = LEVELS[k % 8];
             if args.thorough() { vec![(l, true), (l, false), (LuaLanguageLevel::Lua55, true), (LuaLanguageLevel::Lua51, false)] }
@@ -535,6 +594,8 @@ pub fn run(args: &Args, report: &mut Report) {
                 "corpus" => true,
                 "prefix-family" => lidx % 4 == 0,
                 "limit-ladder" => k % 24 == 0,   // long event streams: a sample is enough for the model tie
+                "big" => false,
+                "doc-family" => lidx % 2 == 0,
                 _ => k % tie_every == 0,
             };
             if tie_this {
